@@ -440,7 +440,7 @@ pub fn store_cfg(rng: &mut Rng) -> GenCfg {
 pub fn run(p: &Params, rep: &mut Report) {
     rep.rule = "final states and prefixes of seeded op-histories (incl. removals -> gaps, id-less annotations and data, all selector kinds, all value types, hostile Unicode ids) are written to STAM JSON and read back under {pretty, compact} inline output and with resources (.txt / .json) and datasets kept in stand-off @include files; the canonical observation (items, ids or their absence, order, selector kinds, referenced items, absolute ranges and alignment, typed values, every reverse lookup) of the reloaded store must equal the original's, and writing the reloaded store again must reproduce the first output byte for byte. distinct_nontrivial = distinct (variant, store shape, has-gaps, has-idless) tuples".into();
     rep.assumptions = vec!["sub-stores: one level, exercised in the thorough tier only (variant 'substore')".into()];
-    let total: u64 = if p.thorough { 8000 } else { 320 };
+    let total: u64 = if p.thorough { 8000 } else { 4000 };
     for k in p.cases(total) {
         rep.current_case = p.case_coord(k);
         rep.cases += 1;
